@@ -71,6 +71,7 @@ def make_edit(doc, facet, second, twin=False):
         with NoTracing():
             set_load_factor(4)
             f = docenv.PARSER.parse(text, M.File)
+            docenv.warm(f)          # every attribute, view and token value was read once before the assignment
             toks = list(f.token_store)
             before = [t.raw_text for t in toks]
             store = f.token_store
